@@ -45,6 +45,9 @@ pub struct MetaCase {
     pub full_meta: bool,
     /// 0 = udta/meta (normal), 1 = no udta at all, 2 = udta without meta, 3 = meta directly in moov
     pub placement: u8,
+    /// 0 = non-fragmented file; 1 = fragmented movie, one stream; 2 = fragmented movie, the accessors are asked on the
+    /// reader derived for a separately opened media segment (read_header on the init segment, then read_fragment_header)
+    pub delivery: u8,
 }
 
 fn text(len: usize) -> String {
@@ -62,6 +65,11 @@ fn text(len: usize) -> String {
         i += 1;
     }
     s
+}
+
+/// Text whose edges a tidy-minded reader might trim: NUL / white space / byte-order mark at either end.
+fn edge_texts() -> Vec<String> {
+    vec!["Ab\0".into(), "\0".into(), "\0Ab".into(), " Ab ".into(), "\u{feff}Ab".into(), "Ab\n".into()]
 }
 
 fn item_nodes(c: &MetaCase) -> Vec<Node> {
@@ -105,31 +113,49 @@ fn item_nodes(c: &MetaCase) -> Vec<Node> {
     items
 }
 
-pub fn build(c: &MetaCase) -> Vec<u8> {
-    let t = LTrack::simple(1, Codec::Avc, 1000, vec![LSample { size: 2, delta: 40, cts: 0, sync: true }], vec![1]);
-    let mut m = LMovie::new(1000, vec![t]);
+/// (file or initialization segment, media segment when delivered separately)
+pub fn build(c: &MetaCase) -> (Vec<u8>, Option<Vec<u8>>) {
     let hd = hdlr(0, 0, &c.handler, "");
     let il = ilst(item_nodes(c));
     let mt = meta(c.full_meta, vec![hd, il]);
-    m.moov_extra = match c.placement {
+    let extra = match c.placement {
         0 => vec![udta(vec![mt])],
         1 => vec![],
         2 => vec![udta(vec![Node::leaf(b"name", b"x".to_vec())])],
         _ => vec![mt],
     };
-    encode(&m).0
+    if c.delivery == 0 {
+        let t = LTrack::simple(1, Codec::Avc, 1000, vec![LSample { size: 2, delta: 40, cts: 0, sync: true }], vec![1]);
+        let mut m = LMovie::new(1000, vec![t]);
+        m.moov_extra = extra;
+        return (encode(&m).0, None);
+    }
+    use crate::refmp4::frag::*;
+    let o = crate::props::c09::all_opts()[0];
+    let fm = LFragMovie { movie_ts: 1000, tracks: vec![LFragTrack { id: 1, codec: Codec::Avc, timescale: 1000, trex_default_duration: 9 }], fragments: vec![vec![crate::props::c09::mk_run(1, &o, 2, 0)]], mehd: None, large_moof: false, offsets_only: false };
+    let mut init = init_nodes(&fm);
+    init[1].children_mut().unwrap().extend(extra);
+    let (media, _) = media_nodes(&fm);
+    if c.delivery == 1 {
+        init.extend(media);
+        (serialize(&init).0, None)
+    } else {
+        (serialize(&init).0, Some(serialize(&media).0))
+    }
 }
 
 pub fn judge(c: &MetaCase, l: &mut Local) {
-    let bytes = build(c);
+    let (bytes, media) = build(c);
     l.evaluations += 1;
     l.transitions += 5;
     let case = || {
         let mut v = json!({"engine": "shape_meta", "title": c.tags.title.as_ref().map(|s| s.len()), "year": format!("{:?}", c.tags.year), "poster": c.tags.poster.as_ref().map(|p| p.len()),
             "desc": c.tags.desc.as_ref().map(|s| s.len()), "order": c.order, "extras": c.extras.iter().map(|(p, k)| json!([p, format!("{:?}", k)])).collect::<Vec<_>>(),
-            "handler": hex(&c.handler), "full_meta": c.full_meta, "placement": c.placement});
+            "handler": hex(&c.handler), "full_meta": c.full_meta, "placement": c.placement, "delivery": c.delivery,
+            "title_text": c.tags.title.as_ref().filter(|s| s.len() <= 16), "desc_text": c.tags.desc.as_ref().filter(|s| s.len() <= 16)});
         if bytes.len() <= 4096 {
             v["input_hex"] = json!(hex(&bytes));
+            v["media_segment_hex"] = json!(media.as_ref().map(|m| hex(m)));
         }
         v
     };
@@ -140,6 +166,17 @@ pub fn judge(c: &MetaCase, l: &mut Local) {
             l.violations.push(Violation::new("C18", "file_with_metadata_does_not_open", case()).obs(json!(e)));
             return;
         }
+    };
+    let r = match &media {
+        None => r,
+        Some(mb) => match guard(|| r.read_fragment_header(std::io::Cursor::new(&mb[..]), mb.len() as u64)) {
+            Ok(Ok(d)) => d,
+            o => {
+                l.outcome("open_failed");
+                l.violations.push(Violation::new("C18", "media_segment_does_not_open", case()).obs(json!(format!("{:?}", o.map(|r| r.map(|_| ()).map_err(|e| e.to_string()))))));
+                return;
+            }
+        },
     };
     l.validated += 1;
     let visible = c.placement == 0 && &c.handler == b"mdir";
@@ -206,7 +243,7 @@ pub fn run(tier: Tier, seed: u64) -> i32 {
     let mut ev = Evidence::new("C18", tier, seed, "model_checking");
     let rep = Reporter::new("C18");
     let th = tier == Tier::Thorough;
-    let titles: Vec<Option<String>> = std::iter::once(None).chain([0usize, 1, 4, 5, 300, 70000].iter().map(|&n| Some(text(n)))).collect();
+    let titles: Vec<Option<String>> = std::iter::once(None).chain([0usize, 1, 4, 5, 300, 70000].iter().map(|&n| Some(text(n)))).chain(edge_texts().into_iter().map(Some)).collect();
     let years: Vec<Option<YearEnc>> = vec![
         None,
         Some(YearEnc::Text("0".into())),
@@ -218,7 +255,7 @@ pub fn run(tier: Tier, seed: u64) -> i32 {
         Some(YearEnc::Binary(u32::MAX)),
     ];
     let posters: Vec<Option<Vec<u8>>> = std::iter::once(None).chain([0usize, 1, 300, 70000].iter().map(|&n| Some((0..n).map(|i| (i * 7 + 0xff) as u8).collect()))).collect();
-    let descs: Vec<Option<String>> = std::iter::once(None).chain([0usize, 5, 300].iter().map(|&n| Some(text(n)))).collect();
+    let descs: Vec<Option<String>> = std::iter::once(None).chain([0usize, 5, 300].iter().map(|&n| Some(text(n)))).chain(edge_texts().into_iter().map(Some)).collect();
     let mut tag_sets = vec![];
     for t in titles.iter() {
         for y in years.iter() {
@@ -277,21 +314,29 @@ pub fn run(tier: Tier, seed: u64) -> i32 {
         .fold(Local::default, |mut l, tags| {
             for h in handlers {
                 for full in [true, false] {
-                    judge(&MetaCase { tags: tags.clone(), order: vec![0, 1, 2, 3], extras: vec![], handler: h, full_meta: full, placement: 0 }, &mut l);
+                    judge(&MetaCase { tags: tags.clone(), order: vec![0, 1, 2, 3], extras: vec![], handler: h, full_meta: full, placement: 0, delivery: 0 }, &mut l);
                 }
             }
             if !big(tags) || th {
                 for o in orders.iter() {
                     for ex in extra_sets.iter() {
-                        judge(&MetaCase { tags: tags.clone(), order: o.clone(), extras: ex.clone(), handler: *b"mdir", full_meta: true, placement: 0 }, &mut l);
+                        judge(&MetaCase { tags: tags.clone(), order: o.clone(), extras: ex.clone(), handler: *b"mdir", full_meta: true, placement: 0, delivery: 0 }, &mut l);
                     }
                 }
                 for ex in extra_sets.iter().take(16) {
-                    judge(&MetaCase { tags: tags.clone(), order: vec![0, 1, 2, 3], extras: ex.clone(), handler: *b"mdir", full_meta: false, placement: 0 }, &mut l);
+                    judge(&MetaCase { tags: tags.clone(), order: vec![0, 1, 2, 3], extras: ex.clone(), handler: *b"mdir", full_meta: false, placement: 0, delivery: 0 }, &mut l);
+                }
+            }
+            // the same movie delivered fragmented: in one stream, and through the reader derived for a media segment
+            for delivery in 1..=2u8 {
+                for h in handlers {
+                    for placement in [0u8, 3] {
+                        judge(&MetaCase { tags: tags.clone(), order: vec![0, 1, 2, 3], extras: vec![], handler: h, full_meta: true, placement, delivery }, &mut l);
+                    }
                 }
             }
             for placement in 1..=3u8 {
-                judge(&MetaCase { tags: tags.clone(), order: vec![0, 1, 2, 3], extras: vec![], handler: *b"mdir", full_meta: true, placement }, &mut l);
+                judge(&MetaCase { tags: tags.clone(), order: vec![0, 1, 2, 3], extras: vec![], handler: *b"mdir", full_meta: true, placement, delivery: 0 }, &mut l);
             }
             l
         })
@@ -305,10 +350,10 @@ pub fn run(tier: Tier, seed: u64) -> i32 {
     ev.set("transitions", json!(l.transitions));
     ev.set("traces_validated_against_impl", json!(l.validated));
     ev.set("distinct_nontrivial", json!(l.nontrivial));
-    ev.set("rule", json!("one case = one reference-encoded movie whose user data carries an item list built from (subset of the four items x payload per item x item order x unrelated items at given positions x handler x meta form x placement); the four accessors are compared with the encoded values; non-trivial = at least one item present, handler mdir, all four answers agreed"));
+    ev.set("rule", json!("one case = one reference-encoded movie whose user data carries an item list built from (subset of the four items x payload per item x item order x unrelated items at given positions x handler x meta form x placement x delivery); the four accessors are compared with the encoded values; non-trivial = at least one item present, handler mdir, all four answers agreed"));
     ev.set("exhaustive", json!(true));
-    ev.set("enumeration", json!({"tag_sets": n_tags, "title_payloads": "absent + lengths 0,1,4,5,300,70000 (valid UTF-8 incl. 2-,3-,4-byte characters)", "year": "absent + text 0,7,2024,4294967295 + binary 0,2024,2^32-1",
-        "poster": "absent + 0,1,300,70000 bytes (type 13)", "summary": "absent + 0,5,300 bytes", "orders": orders.len(), "extra_item_sets": extra_sets.len(), "handlers": ["mdir", "mdta", "0000"], "meta_forms": ["FullBox", "QuickTime (no version word)"],
+    ev.set("enumeration", json!({"tag_sets": n_tags, "title_payloads": "absent + lengths 0,1,4,5,300,70000 (valid UTF-8 incl. 2-,3-,4-byte characters) + 6 edge texts (NUL / blank / newline / BOM at either end)", "year": "absent + text 0,7,2024,4294967295 + binary 0,2024,2^32-1",
+        "poster": "absent + 0,1,300,70000 bytes (type 13)", "summary": "absent + 0,5,300 bytes + the 6 edge texts", "deliveries": ["non-fragmented file", "fragmented, one stream", "fragmented, reader derived by read_fragment_header from the init segment's reader"], "orders": orders.len(), "extra_item_sets": extra_sets.len(), "handlers": ["mdir", "mdta", "0000"], "meta_forms": ["FullBox", "QuickTime (no version word)"],
         "placements": ["udta/meta", "no udta", "udta without meta", "meta directly in moov"]}));
     ev.set("outcome_classes", Value::Object(l.outcomes.iter().map(|(k, v)| (k.clone(), json!(v))).collect()));
     ev.set("samples", json!([
